@@ -136,6 +136,9 @@ func (c c03) Gen(rt *rapid.T, thorough bool) any {
 			switch a.Type {
 			case "File":
 				a.FileDir, a.FileName = "/logs", fmt.Sprintf("f%d.log", i)
+				if i > 0 && sys.Apps[0].Type == "File" && rapid.IntRange(0, 2).Draw(rt, "same_file") == 0 {
+					a.FileName = sys.Apps[0].FileName // two appenders, one file: O_APPEND keeps every line
+				}
 			case "RollingFile":
 				a.FileDir, a.FileName = "/logs", fmt.Sprintf("r%d.log", i)
 				a.Rotation = rapid.SampledFrom([]string{"h", "10m", "2s"}).Draw(rt, "rotation")
@@ -324,10 +327,15 @@ func (c c03) Run(x *Exec, scn any) {
 	if s.Ack {
 		o.Reached = len(acks) >= 2 && x.Sim.Preemptions() > 0
 	}
+	judged := map[string]bool{}
 	for _, sk := range sinks {
 		if s.Ack {
 			break // C20 judges acknowledgements only; line integrity is C03
 		}
+		if judged[sk.name] {
+			continue // sinks writing to the same stream or file are judged together
+		}
+		judged[sk.name] = true
 		var got [][]byte
 		switch sk.kind {
 		case "console":
@@ -347,7 +355,7 @@ func (c c03) Run(x *Exec, scn any) {
 		// are pooled over all console sinks below
 		expected := map[string]int{}
 		for _, other := range sinks {
-			if other.kind == "console" && sk.kind == "console" || other == sk {
+			if other.name == sk.name {
 				for _, e := range all {
 					code := levelCodes[strings.ToUpper(e.Level)]
 					if !e.Returned || !loggerRange.has(code) || code < other.lo || code >= other.hi {
@@ -379,9 +387,6 @@ func (c c03) Run(x *Exec, scn any) {
 		if len(missing) > 0 {
 			o.violate("missing-line", "C03/missing-line/"+sk.kind, "sink %s lacks %d of %d expected lines, e.g. %q", sk.name, len(missing), len(expected), missing[0])
 		}
-		if sk.kind == "console" {
-			break // all console sinks judged together
-		}
 	}
 	if s.Ack {
 		c.judgeAcks(x, s, sinks, all, acks, loggerRange)
@@ -389,6 +394,9 @@ func (c c03) Run(x *Exec, scn any) {
 	for _, e := range x.FS.List("/logs") {
 		if e.Shrinks > 0 {
 			o.violate("file-shrunk", c.ID()+"/file-shrunk", "file %s lost content", e.Name)
+		}
+		if e.Rewrites > 0 {
+			o.violate("file-rewritten", c.ID()+"/file-content-overwritten", "bytes already written to %s were written over %d times: a line that was in the file did not stay there", e.Name, e.Rewrites)
 		}
 	}
 }
